@@ -16,8 +16,10 @@
 (3) witness search: an independent Python statement of the property (vinestruct.py_validate, own Kruskal) on every
     implementation output of (i) and (ii).
 """
+import contextlib
 import hashlib
 import itertools
+import signal
 
 import numpy as np
 
@@ -488,6 +490,21 @@ def _run(ctx):
                         'the k-th tree (k >= 2) of a regular vine is NOT claimed to be a maximum spanning tree (get_tau_matrix writes tau of edge i alone into row i, F8)']
 
 
+@contextlib.contextmanager
+def _cpu_watchdog(seconds):
+    """the oracles below fit the REAL classes without the capture harness (no spin guard): a library whose Prim loop does not terminate must
+    not hang the check.  CPU time of this process (ITIMER_VIRTUAL: independent of the SIGALRM timers the oracles use), re-armed every 5 s"""
+    def fire(sig, frm):
+        raise TimeoutError(f'the oracles on the real classes used more than {seconds} s of CPU time (a fit that does not terminate?)')
+    old = signal.signal(signal.SIGVTALRM, fire)
+    signal.setitimer(signal.ITIMER_VIRTUAL, seconds, 5)
+    try:
+        yield
+    finally:
+        signal.setitimer(signal.ITIMER_VIRTUAL, 0)
+        signal.signal(signal.SIGVTALRM, old)
+
+
 def run(ctx):
     """the check proper, then the re-fit history oracle on the real class (always, also after a broken translation)"""
     from .. import extra_oracles
@@ -495,6 +512,7 @@ def run(ctx):
         _run(ctx)
     finally:
         try:
+          with _cpu_watchdog(300):
             extra_oracles.vine_history(ctx, ('structure',))
             from .. import extra_oracles2
             extra_oracles2.vine_api(ctx, ('positional-seed', 'duplicated-rows'))
